@@ -285,6 +285,43 @@ fn sets(rep: &mut Report, seed: u64, scale: u64) {
                     problems.push(format!("{name}: got {} elements (duplicates: {dup}), mathematical result has {}", got.len(), want.len()));
                 }
             };
+            // `size_hint` of the lazy set-operation iterators must bracket what they yield
+            {
+                let hint = |name: &str, h: (usize, Option<usize>), n: usize, problems: &mut Vec<String>| {
+                    if h.0 > n || h.1.map_or(false, |x| x < n) {
+                        problems.push(format!("{name}: size_hint() = {h:?} but the iterator yields {n}"));
+                    }
+                };
+                hint("union", a.union(&b).size_hint(), ra.union(&rb).count(), &mut problems);
+                hint("intersection", a.intersection(&b).size_hint(), ra.intersection(&rb).count(), &mut problems);
+                hint("intersection (swapped)", b.intersection(&a).size_hint(), ra.intersection(&rb).count(), &mut problems);
+                hint("difference", a.difference(&b).size_hint(), ra.difference(&rb).count(), &mut problems);
+                hint("difference (swapped)", b.difference(&a).size_hint(), rb.difference(&ra).count(), &mut problems);
+                hint("symmetric_difference", a.symmetric_difference(&b).size_hint(), ra.symmetric_difference(&rb).count(), &mut problems);
+                hint("iter", a.iter().size_hint(), ra.len(), &mut problems);
+            }
+            // consuming a set (any phase): into_iter, and drain_filter with its size_hint
+            {
+                let mut log3 = vec![];
+                let (c3, rc3) = build_set(&mut g, hk, universe, &mut log3);
+                let it = c3.into_iter();
+                if it.size_hint() != (rc3.len(), Some(rc3.len())) {
+                    problems.push(format!("into_iter: size_hint() = {:?}, the set holds {}", it.size_hint(), rc3.len()));
+                }
+                chk("into_iter", it.map(|k| k.k()).collect(), rc3.iter().copied().collect(), &mut problems);
+                let (mut c4, rc4) = build_set(&mut g, hk, universe, &mut log3);
+                let want: Vec<u64> = rc4.iter().copied().filter(|k| k % 3 == 0).collect();
+                let mut df = c4.drain_filter(|k| k.k() % 3 == 0);
+                let h = df.size_hint();
+                if h.0 > want.len() || h.1.map_or(false, |x| x < want.len()) {
+                    problems.push(format!("drain_filter: size_hint() = {h:?} but {} elements match", want.len()));
+                }
+                let first = df.next().map(|k| k.k());
+                drop(df);
+                if first.is_some() != !want.is_empty() || c4.iter().any(|k| k.k() % 3 == 0) || c4.len() != rc4.len() - want.len() {
+                    problems.push("drain_filter (set): dropped early, matching elements remain / wrong length".into());
+                }
+            }
             chk("union", a.union(&b).map(|k| k.k()).collect(), ra.union(&rb).copied().collect(), &mut problems);
             chk("union (swapped)", b.union(&a).map(|k| k.k()).collect(), ra.union(&rb).copied().collect(), &mut problems);
             chk("intersection", a.intersection(&b).map(|k| k.k()).collect(), ra.intersection(&rb).copied().collect(), &mut problems);
